@@ -76,6 +76,8 @@ struct CaseSetup {
     /// the case is executed through a ChewingContext: key entry, candidate calls, KB type, selection keys and reset go
     /// through the C entry points (capi/src/io.rs), the editor behind the context is observed through the hook
     capi: bool,
+    /// capi cases: how the sibling records of the trie file are ordered (0 as TrieBuilder writes them, 1 reversed, 2 rotated)
+    capi_mode: u8,
 }
 
 fn new_layout(l: u8) -> Box<dyn SyllableEditor> {
@@ -519,17 +521,28 @@ impl Drop for Holder {
 }
 
 fn build_trie_file(entries: &[Entry], path: &std::path::Path) {
+    build_trie_file_mode(entries, path, 0)
+}
+
+/// mode 1 / 2: the sibling records of every node reversed / rotated (a legal file TrieBuilder never writes)
+fn build_trie_file_mode(entries: &[Entry], path: &std::path::Path, mode: u8) {
     let mut b = TrieBuilder::new();
     for e in entries {
         let _ = b.insert(&e.key, (e.text.as_str(), e.freq).into());
     }
     let _ = std::fs::remove_file(path);
     b.build(path).expect("build trie");
+    if mode != 0 {
+        let bytes = std::fs::read(path).expect("read trie");
+        let out = vharness::util::permute_trie_siblings(&bytes, mode).expect("permute the sibling records");
+        std::fs::write(path, out).expect("write trie");
+    }
 }
 
-/// capi cases: the system dictionary is a trie FILE (tsi.dat; word.dat is empty), whose lookups answer in leaf order;
-/// the setup lists the entries of every key in that order (the model keeps the order it is given)
-fn trie_order(entries: &[Entry], scratch: &std::path::Path) -> Vec<Entry> {
+/// capi cases: the system dictionary is a trie FILE (tsi.dat; word.dat is empty).  The setup lists its entries in the
+/// order the file's own enumeration (Trie::entries) yields them: the phrases of a key in leaf order, keys of equal
+/// length in the order of the sibling records - the order a lookup answers in (the model keeps the order it is given)
+fn trie_order(entries: &[Entry], scratch: &std::path::Path, mode: u8) -> Vec<Entry> {
     let p = scratch.join("order.dat");
     let mut uniq: Vec<Entry> = vec![];
     for e in entries {
@@ -537,17 +550,10 @@ fn trie_order(entries: &[Entry], scratch: &std::path::Path) -> Vec<Entry> {
             uniq.push(e.clone());
         }
     }
-    build_trie_file(&uniq, &p);
+    build_trie_file_mode(&uniq, &p, mode);
     let t = Trie::open(&p).expect("open trie");
-    let mut out: Vec<Entry> = vec![];
-    for e in &uniq {
-        if out.iter().any(|o| o.key == e.key) {
-            continue;
-        }
-        for ph in t.lookup_all_phrases(&e.key, LookupStrategy::Standard) {
-            out.push(Entry { key: e.key.clone(), text: ph.as_str().to_string(), freq: ph.freq(), time: 0 });
-        }
-    }
+    let out: Vec<Entry> = t.entries().map(|(k, ph)| Entry { key: k, text: ph.as_str().to_string(), freq: ph.freq(), time: 0 }).collect();
+    drop(t);
     let _ = std::fs::remove_file(&p);
     out
 }
@@ -560,7 +566,7 @@ fn build_holder(setup: &CaseSetup, scratch: &std::path::Path) -> Holder {
     let _ = std::fs::remove_dir_all(&sys);
     std::fs::create_dir_all(&sys).unwrap();
     build_trie_file(&[], &sys.join("word.dat"));
-    build_trie_file(&setup.sys, &sys.join("tsi.dat"));
+    build_trie_file_mode(&setup.sys, &sys.join("tsi.dat"), setup.capi_mode);
     let mut f = std::fs::File::create(sys.join("swkb.dat")).unwrap();
     for (c, e) in &setup.abbr {
         writeln!(f, "{} {}", c, e).unwrap();
@@ -882,7 +888,7 @@ fn observe(ed: &mut Editor, out: &mut String) {
 fn write_setup(n: usize, s: &CaseSetup, out: &mut String) {
     let _ = writeln!(out, "CASE {}", n);
     if s.capi {
-        let _ = writeln!(out, "CAPI");
+        let _ = writeln!(out, "CAPI {}", s.capi_mode);
     }
     for e in &s.sys {
         let _ = writeln!(out, "SYS {}|{}|{}", key_str(&e.key), cps(&e.text), e.freq);
@@ -1156,8 +1162,15 @@ fn gen_setup_l(rng: &mut Rng, layout: u8) -> (CaseSetup, World) {
     } else {
         vec![]
     };
-    let lifetime = rng.below(100);
-    (CaseSetup { sys, usr, abbr, symsel, lifetime, layout, capi: false }, World { syls, keys, no_word, chain })
+    // the estimator's clock: mostly young; one case in five starts from an old profile (the user entries were last
+    // used thousands / tens of thousands of ticks ago: the other branches of the frequency estimate, should the
+    // stored time ever reach it)
+    let lifetime = match rng.below(10) {
+        0 => 4_000 + rng.below(40_000),
+        1 => 50_000 + rng.below(200_000),
+        _ => rng.below(100),
+    };
+    (CaseSetup { sys, usr, abbr, symsel, lifetime, layout, capi: false, capi_mode: 0 }, World { syls, keys, no_word, chain })
 }
 
 fn key_op(code: KeyCode, mods: Modifiers) -> Op {
@@ -1288,7 +1301,10 @@ fn gen_case(rng: &mut Rng, n: usize, tier: &str, scratch: &std::path::Path, out:
         setup.capi = true;
         setup.usr.clear();
         setup.lifetime = 0;
-        setup.sys = trie_order(&setup.sys, scratch);
+        // one capi case in three reads a file whose sibling records are NOT in ascending order (reversed / rotated):
+        // legal, accepted by the reader's validation, never written by TrieBuilder
+        setup.capi_mode = if rng.chance(1, 3) { 1 + rng.below(2) as u8 } else { 0 };
+        setup.sys = trie_order(&setup.sys, scratch, setup.capi_mode);
     }
     let capi = setup.capi;
     let sparse = rng.chance(1, 3);
@@ -1834,7 +1850,7 @@ fn run(case_file: &str, out_path: &str) -> i32 {
         match tag {
             "CASE" => {
                 n = rest.trim().parse().unwrap_or(0);
-                setup = Some(CaseSetup { sys: vec![], usr: vec![], abbr: vec![], symsel: vec![], lifetime: 0, layout: 0, capi: false });
+                setup = Some(CaseSetup { sys: vec![], usr: vec![], abbr: vec![], symsel: vec![], lifetime: 0, layout: 0, capi: false, capi_mode: 0 });
                 ed = None;
                 dead = false;
                 sparse = false;
@@ -1858,10 +1874,18 @@ fn run(case_file: &str, out_path: &str) -> i32 {
             }
             "MODE" => sparse = rest.trim() == "sparse",
             "LAYOUT" => setup.as_mut().unwrap().layout = rest.trim().parse().unwrap(),
-            "CAPI" => setup.as_mut().unwrap().capi = true,
+            "CAPI" => {
+                let s = setup.as_mut().unwrap();
+                s.capi = true;
+                s.capi_mode = rest.trim().parse().unwrap_or(0);
+            }
             "INIT" => {
                 let s = setup.as_mut().unwrap();
                 s.lifetime = rest.trim().parse().unwrap();
+                if s.capi {
+                    // the listing in the file's own order, whatever order the case file gives
+                    s.sys = trie_order(&s.sys, &scratch, s.capi_mode);
+                }
                 begin_case(s, sparse);
                 write_setup(n, s, &mut out);
                 ed = None;
@@ -2048,6 +2072,7 @@ fn sweep_c18(out_path: &str) -> i32 {
         lifetime: 0,
         layout: 0,
         capi: false,
+        capi_mode: 0,
     };
     let none = Modifiers::default();
     let mut n = 0usize;
